@@ -125,6 +125,12 @@ pub(crate) fn run<'tcx>(
     for (id, ty) in tcx.all_types() {
         let _guard = errors.set_context_ty(ty.name().as_str().into());
 
+        // Skip disabled types before formatting their names: the JS formatter rejects
+        // (panics on) names that are reserved in JS, which is a reason to disable a type
+        if ty.attrs().disable {
+            continue;
+        }
+
         let methods = ty.methods();
 
         const FILE_TYPES: [FileType; 2] = [FileType::Module, FileType::Typescript];
